@@ -28,6 +28,14 @@ REQUIRED_THEOREMS = [
     "TapkeeVerif.Tsne.symmetrizeCsr_small_partial",
     "TapkeeVerif.Tsne.gradient_identity",
     "TapkeeVerif.Tsne.zeroMean_centres",
+    "TapkeeVerif.Tsne.run_neighbour_count",
+    "TapkeeVerif.Tsne.run_joint_distribution",
+    "TapkeeVerif.Tsne.run_exaggeration",
+    "TapkeeVerif.Tsne.run_schedule",
+    "TapkeeVerif.Tsne.run_stage_order",
+    "TapkeeVerif.Tsne.run_bisection_tolerance",
+    "TapkeeVerif.Tsne.run_quadtree_constants",
+    "TapkeeVerif.Tsne.jointDenseAsWritten_eq",
 ]
 
 TH_1EM6 = "4722366482869645:-72"       # the double nearest to 1e-6
